@@ -1,5 +1,6 @@
 import TinsModel.Reassembly.Spec
 import TinsModel.Reassembly.WireUpper
+import TinsModel.Reassembly.Policy
 import Driver.Util
 /- line-protocol driver for IPv4 reassembly (C08): model mode and spec (oracle) mode.
    ops:  case | dgram <tag> <id> <src> <dst> <proto> <tos> <df> <nopt> <hex> <lens,…> | frag <tag> <off> <len> <mf> <ttl> <eth>
@@ -170,6 +171,8 @@ structure SState where
   /-- the datagram table as the harness keeps it (a tag is replaced by a later `dgram` with the same tag only) -/
   tbl : List (String × DG) := []
   log : List LogFrag := []
+  /-- the policy reference for arbitrary sessions (TinsModel/Reassembly/Policy.lean; `model_refines_policy`) -/
+  pol : PState := []
   /-- keys the implementation has an open stream for, according to its own reports -/
   live : List Key := []
 
@@ -240,17 +243,33 @@ def safetyPkt (ss : SState) (pkt : Pkt) (impl : String) : SState × Option Strin
         else none
       (del ss.live, v)
     else (del ss.live, some s!"status-or-exception {st}")
-  let ss' : SState := { ss with log := log', live := live' }
+  let (pol', pp, pout) := polProcess upper ss.pol pkt
+  let ss' : SState := { ss with log := log', live := live', pol := pol' }
   match verdict with
   | some v => (ss', some v)
   | none =>
-    if kv iw "streams" == some (toString live'.length) then (ss', none)
-    else (ss', some s!"streams-live expected: streams={live'.length}")
+    if kv iw "streams" != some (toString live'.length) then (ss', some s!"streams-live expected: streams={live'.length}")
+    else if unmodelledProto pkt.hdr.proto then (ss', none)
+    else
+      -- the policy reference decides status, packet and stream count of every call
+      let exp := showRes pkt pout pp pol'.length
+      if impl == exp then (ss', none) else
+      let ew := words exp
+      let hd (s : Option String) := (s.map (fun x => (x.splitOn "/").headD "")).getD "?"
+      let clause :=
+        if kv iw "st" != kv ew "st" then "status"
+        else if hd (kv iw "pkt") != hd (kv ew "pkt") then "header"
+        else if kv iw "pkt" != kv ew "pkt" then "payload"
+        else if kv iw "same" != kv ew "same" then "untouched"
+        else if kv iw "streams" != kv ew "streams" then "streams"
+        else "format"
+      (ss', some s!"policy-{clause} expected: {exp}")
 
-def safetyTable (ss : SState) (live' : List Key) (impl : String) : SState × Option String :=
-  let ss' := { ss with live := live' }
-  if kv (words impl) "streams" == some (toString live'.length) then (ss', none)
-  else (ss', some s!"streams-live expected: streams={live'.length}")
+def safetyTable (ss : SState) (live' : List Key) (pol' : PState) (impl : String) : SState × Option String :=
+  let ss' := { ss with live := live', pol := pol' }
+  if kv (words impl) "streams" != some (toString live'.length) then (ss', some s!"streams-live expected: streams={live'.length}")
+  else if live'.length != pol'.length then (ss', some s!"policy-streams expected: streams={pol'.length}")
+  else (ss', none)
 
 def specStep0 (st : OState) (line : String) : OState × String :=
   match line.splitOn " ||| " with
@@ -337,10 +356,11 @@ def specStep (st : OState2) (line : String) : OState2 × String :=
         | some (some pkt) => safetyPkt st.safe pkt impl
         | _ => (st.safe, none)
       | ["nonip"] => safetyPkt st.safe nonipPkt impl
-      | ["clear"] => safetyTable st.safe [] impl
+      | ["clear"] => safetyTable st.safe [] (polClear st.safe.pol) impl
       | ["remove", id, src, dst] => match id.toNat?, src.toNat?, dst.toNat? with
         | some id, some src, some dst =>
-          safetyTable st.safe (st.safe.live.filter (fun k => !(k.id == id && k.src == src && k.dst == dst))) impl
+          safetyTable st.safe (st.safe.live.filter (fun k => !(k.id == id && k.src == src && k.dst == dst)))
+            (polRemove st.safe.pol id src dst) impl
         | _, _, _ => (st.safe, none)
       | _ => (st.safe, none)
     let st' : OState2 := { ref := ref', safe := safe' }
